@@ -12,9 +12,10 @@
 import DDProofs.DddmpProofs
 namespace DD
 
-/-- the minimal file on which `dd.dddmp.load` (as it is now) returns wrong roots: two
-roots `a` and `¬ b`, numbered in the order CUDD's writer would number them (then-child,
-else-child, node — root by root); the loader creates level 1 (`b`) first -/
+/-- a small file whose numbering differs from the order in which the loader recreates the
+nodes (the minimal reproduction of finding F1, since repaired): two roots `a` and `¬ b`,
+numbered in the order CUDD's writer would number them (then-child, else-child, node —
+root by root); the loader creates level 1 (`b`) first -/
 def dddmpWitness : DddmpFile := {
   varinfo := some 0, nnodes := some 3, nvars := some 2, nsuppvars := some 2,
   suppvarnames := some [.str "a", .str "b"], orderedvarnames := some [.str "a", .str "b"],
@@ -45,37 +46,76 @@ theorem dddmpWitness_wf : dddmpWitness.WF := by
     · exact ⟨⟨2, .num 0, 0, 1, -1⟩, by simp [dddmpWitness], rfl⟩
     · exact ⟨⟨3, .num 1, 1, 1, -1⟩, by simp [dddmpWitness], rfl⟩
 
-/-- C16, node numbers (under `FoaSpec`): for a well-formed file — whatever numbering it uses
-for its nodes, with or without gaps in the levels — `load` succeeds, the manager satisfies
-the invariant (hence is canonical, C02), and the loader's map sends every node number
-of the file to a reference that denotes, by variable name, what the node list says -/
-theorem C16_load_nodes_of_foaSpec (H : FoaSpec) (f : DddmpFile) (hf : f.WF) :
-    ∃ m umap, loadDddmpU f = .ok (m, umap) ∧ Inv m ∧
-      ∀ x ∈ f.nodes, ∃ r, dictGet umap x.u = some r ∧ m.tbl.Mem r ∧
-        ∀ α, den m.tbl r (asgOf m.tbl α) = evalFile f α x.u :=
-  dddmpLoad_nodes_of_foaSpec H f hf
+/-- C16 (under `FoaSpec`): for a well-formed file — whatever numbering it uses for its
+nodes, with or without gaps in the levels, for each of the variable-identification modes
+0, 1, 3 — `dd.dddmp.load` succeeds, the manager satisfies the invariant (hence is
+canonical, C02), the loader's map sends every node number of the file to a reference that
+denotes, by variable name, what the node list says, and the returned `roots` denote (as a
+set of functions — `bdd.roots` is a `set`) exactly the root entries of the file -/
+theorem C16_load_spec_of_foaSpec (H : FoaSpec) (f : DddmpFile) (hf : f.WF) :
+    ∃ m umap, loadDddmpU f = .ok (m, umap) ∧ loadDddmp f = .ok m ∧ Inv m ∧
+      (∀ x ∈ f.nodes, ∃ r, dictGet umap x.u = some r ∧ m.tbl.Mem r ∧
+        ∀ α, den m.tbl r (asgOf m.tbl α) = evalFile f α x.u) ∧
+      DddmpRootsDenote f m :=
+  dddmpLoad_spec_of_foaSpec H f hf
 
-/-- C16 at full strength: the `roots` of the returned manager denote (by variable name, as
-a set of functions — `bdd.roots` is a `set`) the root entries of the file -/
-def C16_roots_statement : Prop :=
-  ∀ f : DddmpFile, f.WF → ∃ m, loadDddmp f = .ok m ∧ Inv m ∧ DddmpRootsDenote f m
+/-- C16, the roots clause alone -/
+theorem C16_roots_of_foaSpec (H : FoaSpec) (f : DddmpFile) (hf : f.WF) :
+    ∃ m, loadDddmp f = .ok m ∧ Inv m ∧ DddmpRootsDenote f m := by
+  obtain ⟨m, _, _, h, hi, _, hr⟩ := dddmpLoad_spec_of_foaSpec H f hf
+  exact ⟨m, h, hi, hr⟩
 
 /-- the assignment `a = true, b = false` -/
 def dddmpWitnessAsg : String → Bool := fun s => s == "a"
 
-theorem dddmpWitness_eval :
+/-- on the witness file the loader returns the roots `3` (= `a`) and `-2` (= `¬ b`) -/
+theorem dddmpWitness_load :
     (loadDddmp dddmpWitness).toOption.map (fun m =>
+      (m.roots, den m.tbl 3 (asgOf m.tbl dddmpWitnessAsg), den m.tbl (-2) (asgOf m.tbl dddmpWitnessAsg),
+        evalFile dddmpWitness dddmpWitnessAsg 2, evalFile dddmpWitness dddmpWitnessAsg (-3))) =
+    some ([3, -2], true, true, true, true) := by
+  decide +kernel
+
+/-- the variable-identification modes 2 (auxiliary ids) and 4 (none) are refused with
+`NotImplementedError` as soon as the header is consistent, before anything is built -/
+theorem C16_unsupported_varinfo (f : DddmpFile) (hv : f.varinfo = some 2 ∨ f.varinfo = some 4)
+    (hc : dddmpAssertConsistent f = .ok ()) :
+    loadDddmp f = .error .notImplemented := by
+  have hids : ∃ ids permids rootids, f.ids = some ids ∧ f.permids = some permids ∧
+      f.rootids = some rootids := by
+    unfold dddmpAssertConsistent at hc
+    cases h1 : f.ids <;> cases h2 : f.permids <;> cases h3 : f.rootids <;>
+      simp_all [bind, Except.bind, throw, throwThe, MonadExceptOf.throw]
+    all_goals (repeat' split at hc) <;> simp_all
+  obtain ⟨ids, permids, rootids, h1, h2, h3⟩ := hids
+  have hi : dddmpInfo2permid f ids permids = .error .notImplemented := by
+    unfold dddmpInfo2permid dddmpInfoTable
+    rcases hv with hv | hv <;> simp [hv, throw, throwThe, MonadExceptOf.throw]
+  simp [loadDddmp, loadDddmpU, dddmpLoadCore, dddmpHeader, hc, h1, h2, h3, hi, Except.map]
+
+/-- non-vacuity of `C16_unsupported_varinfo` -/
+example : loadDddmp { dddmpWitness with varinfo := some 2 } = .error .notImplemented :=
+  C16_unsupported_varinfo _ (Or.inl rfl) rfl
+
+/-- non-vacuity: the hypotheses of the theorems above are met by `dddmpWitness` -/
+example : dddmpWitness.WF := dddmpWitness_wf
+
+/-! ### historical: the loader before the repair (finding F1)
+
+`loadDddmpPreFix` stored the numbers of the file in `roots`.  The statement of C16 was
+false of it, on the same witness file.  (Not part of the claims about the current code.) -/
+
+theorem dddmpWitness_prefix_eval :
+    (loadDddmpPreFix dddmpWitness).toOption.map (fun m =>
       (m.roots, den m.tbl 2 (asgOf m.tbl dddmpWitnessAsg), den m.tbl (-3) (asgOf m.tbl dddmpWitnessAsg),
         evalFile dddmpWitness dddmpWitnessAsg 2)) = some ([2, -3], false, false, true) := by
   decide +kernel
 
-/-- the full statement is FALSE of the current code: on `dddmpWitness` the file's root `2`
-is the function `a`, the returned roots `2` and `-3` denote `b` and `¬ a`
-(the numbers of the file are stored in `roots` without being translated through `umap`) -/
-theorem C16_roots_statement_false : ¬ C16_roots_statement := by
+theorem dddmpPreFix_roots_false :
+    ¬ (∀ f : DddmpFile, f.WF → ∃ m, loadDddmpPreFix f = .ok m ∧ Inv m ∧ DddmpRootsDenote f m) := by
   intro h
   obtain ⟨m, hm, _, hd, _⟩ := h dddmpWitness dddmpWitness_wf
-  have key := dddmpWitness_eval
+  have key := dddmpWitness_prefix_eval
   rw [hm] at key
   simp only [Except.toOption, Option.map_some, Option.some.injEq, Prod.mk.injEq] at key
   obtain ⟨hr, h2, h3, he⟩ := key
@@ -87,49 +127,5 @@ theorem C16_roots_statement_false : ¬ C16_roots_statement := by
   rcases hrm with rfl | rfl
   · rw [h2] at this; cases this
   · rw [h3] at this; cases this
-
-/-- what the current code does with the roots: it stores the numbers of the file -/
-theorem C16_load_roots_raw (f : DddmpFile) (m : Mgr) (h : loadDddmp f = .ok m) :
-    m.roots = dedupInts (f.rootids.getD []) := by
-  unfold loadDddmp at h
-  cases hU : loadDddmpU f with
-  | error e => rw [hU] at h; cases h
-  | ok p =>
-    obtain ⟨m', umap⟩ := p
-    rw [hU] at h
-    simp only [Except.map, Except.ok.injEq] at h
-    subst h
-    obtain ⟨_, _, roots, hh, hmr⟩ := loadDddmpU_roots hU
-    obtain ⟨_, _, rootids, _, _, hrid, _, _, hrd⟩ := dddmpHeader_inv hh
-    rw [hmr, hrd, hrid]; rfl
-
-/-- C16, the proved part for the current code (under `FoaSpec`): everything about the node
-numbers, and each root entry *translated through the loader's map with its sign* denotes
-the function of that root entry -/
-theorem C16_load_spec_partial_of_foaSpec (H : FoaSpec) (f : DddmpFile) (hf : f.WF) :
-    ∃ m umap, loadDddmpU f = .ok (m, umap) ∧ loadDddmp f = .ok m ∧ Inv m ∧
-      (∀ x ∈ f.nodes, ∃ r, dictGet umap x.u = some r ∧ m.tbl.Mem r ∧
-        ∀ α, den m.tbl r (asgOf m.tbl α) = evalFile f α x.u) ∧
-      (∀ ρ ∈ f.rootids.getD [], ∃ r, dictGet umap (ρ.natAbs : Int) = some r ∧
-        m.tbl.Mem (if ρ > 0 then r else -r) ∧
-        ∀ α, den m.tbl (if ρ > 0 then r else -r) (asgOf m.tbl α) = evalFile f α ρ) ∧
-      m.roots = dedupInts (f.rootids.getD []) :=
-  dddmpLoad_spec_partial_of_foaSpec H f hf
-
-/-- C16 for the repaired loader `loadDddmpFixed` (roots translated through `umap` with
-sign): the full statement holds (under `FoaSpec`) -/
-theorem C16_fixed_roots_of_foaSpec (H : FoaSpec) (f : DddmpFile) (hf : f.WF) :
-    ∃ m, loadDddmpFixed f = .ok m ∧ Inv m ∧ DddmpRootsDenote f m :=
-  dddmpLoadFixed_roots_of_foaSpec H f hf
-
-/-- non-vacuity: the hypotheses of the theorems above are met by `dddmpWitness` -/
-example : dddmpWitness.WF := dddmpWitness_wf
-
-/-- the repaired loader is right on the witness: roots `3` (= `a`) and `-2` (= `¬ b`) -/
-example : (loadDddmpFixed dddmpWitness).toOption.map (fun m =>
-    (m.roots, den m.tbl 3 (asgOf m.tbl dddmpWitnessAsg), den m.tbl (-2) (asgOf m.tbl dddmpWitnessAsg),
-      evalFile dddmpWitness dddmpWitnessAsg 2, evalFile dddmpWitness dddmpWitnessAsg (-3))) =
-    some ([3, -2], true, true, true, true) := by
-  decide +kernel
 
 end DD
